@@ -322,10 +322,18 @@ static long eval_const_expr(Token **rest, Token *tok) {
   convert_pp_tokens(expr);
 
   // In #if all signed integer types act as intmax_t and all unsigned
-  // ones as uintmax_t (C11 6.10.1p4).
-  for (Token *t = expr; t->kind != TK_EOF; t = t->next)
-    if (t->kind == TK_NUM && is_integer(t->ty))
-      t->ty = t->ty->is_unsigned ? ty_ulong : ty_long;
+  // ones as uintmax_t (C11 6.10.1p4), so an integer constant is
+  // unsigned only if it has a u suffix or does not fit in intmax_t:
+  // 0x80000000 is signed here.
+  for (Token *t = expr; t->kind != TK_EOF; t = t->next) {
+    if (t->kind != TK_NUM || !is_integer(t->ty))
+      continue;
+    bool is_unsigned = t->ty->is_unsigned;
+    if (isdigit(t->loc[0]))
+      is_unsigned = memchr(t->loc, 'u', t->len) || memchr(t->loc, 'U', t->len) ||
+                    (uint64_t)t->val > INT64_MAX;
+    t->ty = is_unsigned ? ty_ulong : ty_long;
+  }
 
   Token *rest2;
   long val = const_expr(&rest2, expr);
